@@ -37,9 +37,9 @@ type Result struct {
 }
 
 type Opts struct {
-	Module   string   // e.g. MCIavl
-	Config   string   // cfg file name inside SpecDir, or "" when CfgText is given
-	CfgText  string   // generated cfg
+	Module   string // e.g. MCIavl
+	Config   string // cfg file name inside SpecDir, or "" when CfgText is given
+	CfgText  string // generated cfg
 	Workers  int
 	Simulate string // e.g. "num=100" ("" = BFS)
 	Depth    int
